@@ -2029,9 +2029,47 @@ func ruleEveryBlockDecoded(c *Check, p *Program, rule string) {
 		return
 	}
 	n := 0
-	for _, g := range withAnon(fn) {
+	// the pipeline's functions: initR, the functions it is split into, the goroutines they start, their literals
+	family := []*ssa.Function{fn}
+	inFam := map[*ssa.Function]bool{fn: true}
+	for i := 0; i < len(family) && i < 40; i++ {
+		g := family[i]
+		for _, a := range g.AnonFuncs {
+			if !inFam[a] {
+				inFam[a] = true
+				family = append(family, a)
+			}
+		}
 		for _, ci := range callsIn(g) {
-			if _, isCall := ci.(*ssa.Call); !isCall || !calleeIs(ci, pkgStream, "FrameDataBlock.Read") {
+			h := ci.Common().StaticCallee()
+			if h != nil && h.Pkg == fn.Pkg && len(h.Blocks) > 0 && !inFam[h] && (isHelper(h) || recvTypeName(h) == "Blocks") && h.Name() != "closeR" && h.Name() != "ErrorR" {
+				inFam[h] = true
+				family = append(family, h)
+			}
+		}
+	}
+	readsBlock := func(ci ssa.CallInstruction) bool {
+		if _, isCall := ci.(*ssa.Call); !isCall {
+			return false
+		}
+		if calleeIs(ci, pkgStream, "FrameDataBlock.Read") {
+			return true
+		}
+		// a helper of the pipeline that reads the next block for its caller
+		h := ci.Common().StaticCallee()
+		if h == nil || !inFam[h] || h == fn {
+			return false
+		}
+		for _, cj := range callsIn(h) {
+			if _, isCall := cj.(*ssa.Call); isCall && calleeIs(cj, pkgStream, "FrameDataBlock.Read") {
+				return true
+			}
+		}
+		return false
+	}
+	for _, g := range family {
+		for _, ci := range callsIn(g) {
+			if !readsBlock(ci) {
 				continue
 			}
 			n++
@@ -2041,20 +2079,24 @@ func ruleEveryBlockDecoded(c *Check, p *Program, rule string) {
 				if !ok {
 					return false
 				}
-				return callReaches(gi, func(x ssa.CallInstruction) bool { return calleeIs(x, pkgStream, "FrameDataBlock.Uncompress") }) || func() bool {
-					if mc, isMC := gi.Call.Value.(*ssa.MakeClosure); isMC {
-						if f, isF := mc.Fn.(*ssa.Function); isF {
-							for _, h := range deepFuncs(f, 1) {
-								for _, cj := range callsIn(h) {
-									if calleeIs(cj, pkgStream, "FrameDataBlock.Uncompress") {
-										return true
-									}
-								}
-							}
+				// the function started: a literal, or a named function or method of the module
+				var f *ssa.Function
+				if mc, isMC := gi.Call.Value.(*ssa.MakeClosure); isMC {
+					f, _ = mc.Fn.(*ssa.Function)
+				} else {
+					f = gi.Call.StaticCallee()
+				}
+				if f == nil || !inModule(f) {
+					return false
+				}
+				for _, h := range deepFuncs(f, 1) {
+					for _, cj := range callsIn(h) {
+						if calleeIs(cj, pkgStream, "FrameDataBlock.Uncompress") {
+							return true
 						}
 					}
-					return false
-				}()
+				}
+				return false
 			}
 			again, trail := reachAvoid(g, ci.(ssa.Instruction), func(in ssa.Instruction) bool { return in == ci.(ssa.Instruction) }, isSpawn)
 			c.Cond(!again, rule, "initR.reader#every-block-decoded", p.InstrPos(ci), "every block read from the source is handed to a decoding goroutine before the next one is read (its checksum is compared there)", "no path from the read to the next read avoids the spawn", "the next block can be read without the previous one having been handed to a decoder ("+strings.Join(trail, " -> ")+"): the block and its declared checksum are consumed unverified")
